@@ -43,7 +43,7 @@ def enc_transform(t):
     body = struct.pack('>BBH', t['type'], 0, t['id'])
     if t.get('keylen'):
         body += struct.pack('>HH', 0x8000 | 14, t['keylen'])
-    return body
+    return body + t.get('raw_attrs', b'')          # (attribute octets an attacker adds: e.g. a Key Length attribute of value 0)
 
 
 def enc_proposal(p):
